@@ -16,7 +16,7 @@ class CallMixin:
     def ev_Call(self, node, st):
         # spec-only forms first
         f = node.func
-        if isinstance(f, ast.Name) and f.id not in st.vars:
+        if isinstance(f, ast.Name) and (f.id not in st.vars or (self.spec_mode and not isinstance(st.vars[f.id], FuncV))):
             h = getattr(self, 'form_' + f.id, None)
             if h is not None and (self.spec_mode or f.id in ('isinstance', 'hasattr', 'type')):
                 return h(node, st)
@@ -149,7 +149,9 @@ class CallMixin:
                 # a cell outside the concrete buffer does not exist: nothing to compare
                 # (out-of-bounds accesses of the real code are caught natively by ASan)
                 return True
-            raise
+            # the consequent is undefined (e.g. dereferences NULL): the implication can only hold
+            # where its antecedent is false
+            b = False
         finally:
             if a is not True:
                 self.guards.pop()
@@ -183,6 +185,8 @@ class CallMixin:
 
     def form_length(self, node, st):
         return self.bi_len([self.ev(node.args[0], st)], {}, node, st)
+
+    form_nelems = form_length
 
     def form_is_none(self, node, st):
         return self.identity(self.ev(node.args[0], st), None)
@@ -293,6 +297,8 @@ class CallMixin:
             v = v.v
         if isinstance(v, (tuple, list, dict, str)):
             return len(v)
+        if v is None and self.spec_mode:
+            return 0
         if isinstance(v, Ptr):
             if v.oid is None:
                 return 0
@@ -548,6 +554,8 @@ class CallMixin:
             self.inline_depth -= 1
             self.frames.pop()
             st.vars = saved_vars
+        if self.lang == 'c':
+            self.sync_boxes(st)
         return r
 
     def call_contract(self, c, finfo, args, kwargs, node, st):
@@ -578,6 +586,29 @@ class CallMixin:
             # havoc what the callee may assign
             for a in c.assigns:
                 self.havoc_assigned(a, bound, st)
+                v_ = bound.get(a.split('.')[0])
+                if isinstance(v_, (Ref, Ptr)) and getattr(v_, 'oid', None) is not None and hasattr(self, 'omp_log'):
+                    self.omp_log(v_.oid, None, 'w', st, node)
+            # out parameters that receive freshly allocated blocks
+            for pn, d in (getattr(c, 'allocates', None) or {}).items():
+                cell = bound.get(pn)
+                if isinstance(cell, Ptr) and cell.oid is not None:
+                    if isinstance(d, tuple) and len(d) == 2 and isinstance(d[1], str) and d[0] != 'ptr':
+                        # conditional allocation: (descriptor, condition over the callee's pre-state)
+                        cond = truth(self.eval_spec(d[1], cs))
+                        if self.decide(cond, st, node, tag='alloc'):
+                            newp = self.make_value(d[0], '%s_new' % pn, st)
+                        else:
+                            newp = Ptr(None, 0)
+                    else:
+                        newp = self.make_value(d, '%s_new' % pn, st)
+                    box = st.heap[cell.oid].clone()
+                    box.items = [newp]
+                    st.heap[cell.oid] = box
+            if c.returns is None and c.lang == 'c' and finfo is not None:
+                rt = (getattr(finfo.node, 'rettype', '') or '').strip()
+                c.returns = {'seq_t': 'val', 'double': 'val', 'idx_t': 'int', 'int': 'int', 'bool': 'bool',
+                             '_Bool': 'bool', 'void': None}.get(rt)
             result = self.fresh_result(c, st)
             cs2 = st.fork()
             cs2.pc = st.pc
@@ -589,6 +620,8 @@ class CallMixin:
                                      '(ill-typed contract, e.g. missing `returns`)' % (text, c.name, self.fname))
                 st.assume(zbool(e))
             # heap objects created by fresh_result live in st.heap already
+            if self.lang == 'c':
+                self.sync_boxes(st)
             return result
         finally:
             self.frame.ghost = saved_frame_ghost
@@ -603,6 +636,10 @@ class CallMixin:
             o2 = obj.clone()
             for f in ([field] if field else list(o2.fields)):
                 o2.fields[f] = self.havoc_value(o2.fields[f], '%s.%s' % (base, f), st)
+            st.heap[v.oid] = o2
+        elif obj.pykind == 'cbox':
+            o2 = obj.clone()
+            o2.items = [self.havoc_value(o2.items[0], base + '_cell', st)]
             st.heap[v.oid] = o2
         else:
             self.cur_state = st
